@@ -139,7 +139,7 @@ def tokenizer_state(tok):
             out[k] = 'regex:' + v.pattern
         else:
             out[k] = repr(v)
-    out['__class__'] = type(tok).__mro__[-3].__name__ if getattr(type(tok), '_rv_traced', False) \
+    out['__class__'] = type(tok).__mro__[1].__name__ if getattr(type(tok), '_rv_traced', False) \
         else type(tok).__name__
     return out
 
